@@ -267,7 +267,10 @@ Proof. reflexivity. Qed.
 (* effects of the paths that only notify / close: application handlers, DISCONNECT packets,
    eio.disconnect calls *)
 Definition passive (x : eff) : bool :=
-  match x with FHandler _ _ _ | FSendDisconnect _ | FEioDisconnect _ => true | _ => false end.
+  match x with
+  | FHandler _ _ _ | FSendDisconnect _ | FEioDisconnect _ | FSendEvent _ _ | FEmit _ | FCallback _ => true
+  | _ => false
+  end.
 Definition core (st : state) := (rtask st, aflag st, rcl st, tasks st, next_id st).
 
 Lemma Forall_finals l : Forall (fun x => passive x = true) (finals l).
@@ -297,7 +300,7 @@ Proof.
             (flat_map (fun n => FHandler HDisconnect n (Some why) ::
                                 (if w then [] else [FHandler HFinal n None])) (nss st))).
   { intro w. apply Forall_flat_map. intros n _. destruct w; repeat constructor. }
-  destruct (connected st) eqn:Hc; cbn [rtask set_connected set_nss];
+  destruct (connected st) eqn:Hc; cbn [rtask set_connected set_nss set_cbs];
     destruct (will && negb (is_some (rtask st))) eqn:Hw; cbn;
     repeat split; auto; try (eexists; split; [reflexivity|]); auto.
   exists []. split; [reflexivity|constructor].
@@ -357,7 +360,7 @@ Definition connect_eff (a : cargs) (l : list ns) (x : eff) : Prop :=
   match x with
   | FEioConnect u h t q => u = a_url a /\ h = a_headers a /\ t = a_transports a /\ q = a_path a
   | FSendConnect n au => au = a_auth a /\ In n l
-  | FHandler _ _ _ | FSendDisconnect _ | FEioDisconnect _ => True
+  | FHandler _ _ _ | FSendDisconnect _ | FEioDisconnect _ | FSendEvent _ _ | FEmit _ | FCallback _ => True
   | _ => False
   end.
 
@@ -459,12 +462,31 @@ Proof.
         destruct (api_disconnect p (set_nss (set_est (set_nss (set_conn_args st a l) []) EConn) cur))
           as [st3 e3].
         destruct Hd as (D1 & D2 & D3 & D4 & D5 & D6 & D7). cbn in D3, D4, D5, D6.
-        unfold core in *. cbn in D1.
+        unfold core in *. cbn in D1. cbn [set_nss connected est args cns rtask aflag rcl tasks next_id].
         repeat split; auto; try discriminate; try congruence.
         constructor; [repeat split|]. apply Forall_app. split; [exact Heff|].
         eapply Forall_impl; [|exact D7]. intros x. apply passive_connect_eff.
   - cbn. repeat split; auto; try discriminate; try congruence. constructor; [repeat split|constructor].
   - cbn. repeat split; auto; try discriminate; try congruence. constructor; [repeat split|constructor].
+Qed.
+
+(* ---- emit with callback / ACK from the server: only self.callbacks changes ---- *)
+Definition is_cb_ev (ev : event) : bool :=
+  match ev with EmitCb _ | ServerAck _ _ => true | _ => false end.
+Lemma emit_ack_spec p st ev :
+  is_cb_ev ev = true ->
+  let '(st', e) := step p st ev in
+  core st' = core st /\ est st' = est st /\ connected st' = connected st /\
+  args st' = args st /\ cns st' = cns st /\ nss st' = nss st /\
+  Forall (fun x => passive x = true) e.
+Proof.
+  destruct ev; try discriminate; intros _; cbn [step].
+  - destruct (mem n (nss st)); [|repeat split; repeat constructor].
+    destruct (cb_lookup n (cbs st)) as [nxt entries]. cbn.
+    repeat split; auto. destruct (is_conn (est st)); repeat constructor.
+  - destruct (is_conn (est st)); [|repeat split; repeat constructor].
+    destruct (cb_find n (cbs st)) as [[nxt entries]|]; [|repeat split; repeat constructor].
+    destruct (find (fun e => fst e =? id) entries) as [[i k]|]; repeat split; repeat constructor.
 Qed.
 
 (* ---- the invariant of reachable states ---- *)
@@ -595,7 +617,7 @@ Proof. reflexivity. Qed.
 Theorem inv_step p st ev : Inv p st -> Inv p (fst (step p st ev)).
 Proof.
   intro HI. pose proof HI as (Ht & Hest & Hfix & Hce).
-  destruct ev as [a l o|r| |n| | | |i o r race]; cbn [step].
+  destruct ev as [a l o|r| |n| | | |i o r race|n|n aid]; cbn [step].
   - (* Connect *)
     pose proof (do_connect_spec p st a l o) as Hd.
     destruct (do_connect p st a l o) as [[st1 e1] res].
@@ -627,7 +649,7 @@ Proof.
     + rewrite D2. discriminate.
     + intro Hc1. destruct (connected st) eqn:Hc; [rewrite D6 in Hc1; auto|rewrite D5 in Hc1; auto]; discriminate.
   - (* ServerDisconnect *)
-    destruct (is_conn (est st) && connected st); [|exact HI].
+    destruct (is_conn (est st) && (connected st || mem n (nss st))); [|exact HI].
     destruct (remove_ns n (nss st)).
     + pose proof (eio_disconnect_spec p (set_connected (set_nss st []) false) RClient) as Hd.
       destruct (eio_disconnect p (set_connected (set_nss st []) false) RClient) as [st1 e1].
@@ -706,6 +728,16 @@ Proof.
            ++ rewrite Hcur. rewrite (pow2_S (S (t_count t))). ring.
            ++ intro Hpos. apply andb_false_iff in Hg as [Hg|Hg]; lia.
       * congruence.
+  - (* EmitCb *)
+    pose proof (emit_ack_spec p st (EmitCb n) eq_refl) as Hs. cbn [step] in Hs.
+    match goal with |- Inv p (fst ?x) => destruct x as [st1 e1] end.
+    destruct Hs as (S1 & S2 & S3 & _). cbn [fst].
+    eapply inv_core; [exact S1|congruence|rewrite S2, S3; exact Hce|exact HI].
+  - (* ServerAck *)
+    pose proof (emit_ack_spec p st (ServerAck n aid) eq_refl) as Hs. cbn [step] in Hs.
+    match goal with |- Inv p (fst ?x) => destruct x as [st1 e1] end.
+    destruct Hs as (S1 & S2 & S3 & _). cbn [fst].
+    eapply inv_core; [exact S1|congruence|rewrite S2, S3; exact Hce|exact HI].
 Qed.
 
 Lemma inv_run_from p : forall evs st, Inv p st -> Inv p (fst (run_from p st evs)).
@@ -755,7 +787,8 @@ Definition step_shape (p : params) (st : state) (ev : event) (e : list eff) : Pr
         (e = FLost :: e0 \/
          (e = FLost :: (e0 ++ [FSpawn (next_id st)]) ++ [FRandom; FWait (fst (next_wait p (delay0 p) r))] /\
           reconnection p = true /\ rtask st = None /\ tasks st = []))
-  | Disconnect | ServerDisconnect _ | ServerClose => Forall (fun x => passive x = true) e
+  | Disconnect | ServerDisconnect _ | ServerClose | EmitCb _ | ServerAck _ _ =>
+      Forall (fun x => passive x = true) e
   | Shutdown | Sigint =>
       Forall (fun x => passive x = true) e \/
       exists t, tasks st = [t] /\ e = finals (cns st) ++ [FTaskEnd (t_id t) Aborted]
@@ -768,7 +801,7 @@ Definition step_shape (p : params) (st : state) (ev : event) (e : list eff) : Pr
 Lemma step_effects p st ev : Inv p st -> step_shape p st ev (snd (step p st ev)).
 Proof.
   intro HI. pose proof HI as (Ht & Hest & Hfix & Hce).
-  destruct ev as [a l o|r| |n| | | |i o r race]; cbn [step step_shape].
+  destruct ev as [a l o|r| |n| | | |i o r race|n|n aid]; cbn [step step_shape].
   - pose proof (do_connect_spec p st a l o) as Hd.
     destruct (do_connect p st a l o) as [[st1 e1] res].
     destruct Hd as (_ & _ & _ & _ & _ & _ & _ & _ & _ & Deff). cbn. eauto.
@@ -787,7 +820,7 @@ Proof.
     + destruct H8 as (-> & H9 & H10 & Hp). exists e1. cbn. repeat split; auto.
   - pose proof (api_disconnect_spec p st) as Hd. destruct (api_disconnect p st) as [st1 e1].
     destruct Hd as (_ & _ & _ & _ & _ & _ & D7). exact D7.
-  - destruct (is_conn (est st) && connected st); [|constructor].
+  - destruct (is_conn (est st) && (connected st || mem n (nss st))); [|constructor].
     destruct (remove_ns n (nss st)).
     + pose proof (eio_disconnect_spec p (set_connected (set_nss st []) false) RClient) as Hd.
       destruct (eio_disconnect p (set_connected (set_nss st []) false) RClient) as [st1 e1].
@@ -831,6 +864,12 @@ Proof.
       * destruct S6 as (_ & _ & S6). rewrite after_attempt_false in S6.
         destruct (negb (attempts p =? 0)%Z && (attempts p <=? Z.of_nat (S (t_count t)))%Z);
           destruct S6 as (_ & _ & _ & ->); eexists; repeat split; eauto.
+  - pose proof (emit_ack_spec p st (EmitCb n) eq_refl) as Hs. cbn [step] in Hs.
+    match goal with |- Forall _ (snd ?x) => destruct x as [st1 e1] end.
+    destruct Hs as (_ & _ & _ & _ & _ & _ & S7). exact S7.
+  - pose proof (emit_ack_spec p st (ServerAck n aid) eq_refl) as Hs. cbn [step] in Hs.
+    match goal with |- Forall _ (snd ?x) => destruct x as [st1 e1] end.
+    destruct Hs as (_ & _ & _ & _ & _ & _ & S7). exact S7.
 Qed.
 
 (* ---- consequences ---- *)
@@ -865,7 +904,7 @@ Theorem machine_delay p evs ev w :
 Proof.
   cbv zeta. intro Hin. pose proof (inv_final p evs) as HI.
   pose proof (step_effects p _ ev HI) as Hs. set (st := final p evs) in *.
-  destruct ev as [a l o|r| |n| | | |i o r race]; cbn [step_shape] in Hs.
+  destruct ev as [a l o|r| |n| | | |i o r race|n|n aid]; cbn [step_shape] in Hs.
   - destruct Hs as (e1 & res & He & Hf). rewrite He in Hin. apply in_app_or in Hin as [Hin|[Hin|[]]].
     + apply (connect_eff_in _ _ _ _ Hf) in Hin. destruct Hin.
     + discriminate.
@@ -903,6 +942,8 @@ Proof.
       destruct (inv_tasks p st HI) as [Hn|(t' & Hn & Hok & _)]; [congruence|].
       rewrite Ht in Hn. inversion Hn; subst t'. destruct Hok as (_ & _ & Hcur & _).
       apply wait_form. exact Hcur.
+  - apply (passive_in _ _ Hs) in Hin. discriminate.
+  - apply (passive_in _ _ Hs) in Hin. discriminate.
 Qed.
 
 
@@ -1026,7 +1067,7 @@ Proof.
   destruct (step p st ev) as [st' e] eqn:Hstep. cbn [snd] in Hs.
   split; [|split; [|split]].
   - intros id Hin.
-    destruct ev as [a l o|r| |n| | | |i o r race]; cbn [step_shape] in Hs.
+    destruct ev as [a l o|r| |n| | | |i o r race|n|n aid]; cbn [step_shape] in Hs.
     + destruct Hs as (e1 & res & He & Hf). rewrite He in Hin. apply in_app_or in Hin as [Hin|[Hin|[]]].
       * apply (connect_eff_in _ _ _ _ Hf) in Hin. destruct Hin.
       * discriminate.
@@ -1054,8 +1095,10 @@ Proof.
       * apply in_app_or in Hin as [Hin|[Hin|[]]]; [|discriminate].
         apply finals_in in Hin as (n & Hx & _). discriminate.
       * destruct Hin as [Hin|[Hin|[]]]; discriminate.
+    + apply (passive_in _ _ Hs) in Hin. discriminate.
+    + apply (passive_in _ _ Hs) in Hin. discriminate.
   - intros u h t q Hin.
-    destruct ev as [a l o|r| |n| | | |i o r race]; cbn [step_shape] in Hs.
+    destruct ev as [a l o|r| |n| | | |i o r race|n|n aid]; cbn [step_shape] in Hs.
     + left. reflexivity.
     + destruct Hs as [He|(e0 & Hp & Hc & [He|(He & Hrec & Hr & Hn)])]; rewrite He in Hin.
       * destruct Hin.
@@ -1077,7 +1120,9 @@ Proof.
         apply finals_in in Hin as (n & Hx & _). discriminate.
     + destruct Hs as [He|(t' & e1 & tl & Ht & Hi & He & Hf & Htl)]; rewrite He in Hin; [destruct Hin|].
       right. subst i. split; [eauto|]. rewrite Ht. discriminate.
-  - destruct ev as [a l o|r| |n| | | |i o r race]; auto; cbn [step] in Hstep.
+    + apply (passive_in _ _ Hs) in Hin. discriminate.
+    + apply (passive_in _ _ Hs) in Hin. discriminate.
+  - destruct ev as [a l o|r| |n| | | |i o r race|n|n aid]; auto; cbn [step] in Hstep.
     + pose proof (do_connect_spec p st a l o) as Hd.
       destruct (do_connect p st a l o) as [[st1 e1] res].
       destruct Hd as (Dcore & _). inversion Hstep; subst. unfold core in Dcore. congruence.
@@ -1088,7 +1133,7 @@ Proof.
       destruct Hh as (_ & _ & _ & _ & _ & H6 & _ & -> & _). inversion Hstep; subst. cbn. exact H6.
     + pose proof (api_disconnect_spec p st) as Hd. destruct (api_disconnect p st) as [st1 e1].
       destruct Hd as (Dcore & _). inversion Hstep; subst. unfold core in Dcore. congruence.
-    + destruct (is_conn (est st) && connected st); [|inversion Hstep; subst; reflexivity].
+    + destruct (is_conn (est st) && (connected st || mem n (nss st))); [|inversion Hstep; subst; reflexivity].
       destruct (remove_ns n (nss st)).
       * pose proof (eio_disconnect_spec p (set_connected (set_nss st []) false) RClient) as Hd.
         destruct (eio_disconnect p (set_connected (set_nss st []) false) RClient) as [st1 e1].
@@ -1098,7 +1143,7 @@ Proof.
       pose proof (eio_disconnect_spec p st RServer) as Hd. destruct (eio_disconnect p st RServer) as [st1 e1].
       destruct Hd as (Dcore & _). inversion Hstep; subst. unfold core in Dcore. congruence.
   - pose proof HI as (_ & Hest & _ & Hce).
-    destruct ev as [a l o|r| |n| | | |i o r race]; auto; cbn [step] in Hstep.
+    destruct ev as [a l o|r| |n| | | |i o r race|n|n aid]; auto; cbn [step] in Hstep.
     + pose proof (api_disconnect_spec p st) as Hd. destruct (api_disconnect p st) as [st1 e1].
       destruct Hd as (_ & D2 & _ & _ & D5 & D6 & _). inversion Hstep; subst. split; [exact D2|].
       destruct (connected st) eqn:Hc; auto.
@@ -1124,7 +1169,7 @@ Theorem args_set_by_connect p evs ev :
   end.
 Proof.
   cbv zeta. pose proof (inv_final p evs) as HI. set (st := final p evs) in *.
-  destruct ev as [a l o|r| |n| | | |i o r race]; cbn [step].
+  destruct ev as [a l o|r| |n| | | |i o r race|n|n aid]; cbn [step].
   - pose proof (do_connect_spec p st a l o) as Hd.
     destruct (do_connect p st a l o) as [[st1 e1] res].
     destruct Hd as (_ & Dc & Da & _). cbn. destruct (connected st).
@@ -1136,7 +1181,7 @@ Proof.
     destruct Hh as (_ & H2 & H3 & _). destruct sp; [unfold task_start|]; cbn; auto.
   - pose proof (api_disconnect_spec p st) as Hd. destruct (api_disconnect p st) as [st1 e1].
     destruct Hd as (_ & _ & D3 & D4 & _). auto.
-  - destruct (is_conn (est st) && connected st); auto. destruct (remove_ns n (nss st)); auto.
+  - destruct (is_conn (est st) && (connected st || mem n (nss st))); auto. destruct (remove_ns n (nss st)); auto.
     pose proof (eio_disconnect_spec p (set_connected (set_nss st []) false) RClient) as Hd.
     destruct (eio_disconnect p (set_connected (set_nss st []) false) RClient) as [st1 e1].
     destruct Hd as (_ & _ & D3 & D4 & _). auto.
@@ -1164,6 +1209,12 @@ Proof.
       destruct (connected st).
       * destruct (Dc eq_refl) as (-> & _). auto.
       * apply Da. reflexivity.
+  - pose proof (emit_ack_spec p st (EmitCb n) eq_refl) as Hs. cbn [step] in Hs.
+    match goal with |- args (fst ?x) = _ /\ _ => destruct x as [st1 e1] end.
+    destruct Hs as (_ & _ & _ & S4 & S5 & _). auto.
+  - pose proof (emit_ack_spec p st (ServerAck n aid) eq_refl) as Hs. cbn [step] in Hs.
+    match goal with |- args (fst ?x) = _ /\ _ => destruct x as [st1 e1] end.
+    destruct Hs as (_ & _ & _ & S4 & S5 & _). auto.
 Qed.
 
 (* ... and every reconnection attempt uses exactly the stored ones: url, headers, transports and
@@ -1204,7 +1255,8 @@ Theorem success_runs_connect_handlers p evs i o r race id :
   In (FTaskEnd id Reconnected) e ->
   (forall n, In n (cns st) -> In (FHandler HConnect n None) e) /\
   attempt_ok (args st) (cns st) o = true /\
-  tasks st' = [] /\ rtask st' = None /\ rcl st' = 0 /\ (race = false -> connected st' = true).
+  tasks st' = [] /\ rtask st' = None /\ rcl st' = 0 /\ (race = false -> connected st' = true) /\
+  connected st = false /\ est st = EDisc.
 Proof.
   cbv zeta. pose proof (inv_final p evs) as HI. set (st := final p evs) in *. cbn [step].
   destruct (inv_tasks p st HI) as [Hn|[t [Hn _]]].
@@ -1219,7 +1271,7 @@ Proof.
   assert (Hne1 : ~ In (FTaskEnd id Reconnected) e1).
   { intro H. apply (connect_eff_in _ _ _ _ Deff) in H. exact H. }
   destruct res; [| | |congruence].
-  - destruct (Dok eq_refl) as (_ & _ & _ & _ & K5 & K6).
+  - destruct (Dok eq_refl) as (_ & _ & K3 & K4 & K5 & K6).
     destruct S6 as (T1 & T2 & T3 & e2 & -> & _ & T4 & _).
     repeat split; auto.
     + intros n Hn'. apply in_or_app. left. apply K6. exact Hn'.
@@ -1320,7 +1372,7 @@ Proof.
     rewrite C1 in Hr. unfold live. rewrite C4. destruct (Hacc id Hr) as [H|[H|H]]; auto.
     - right. left. apply in_or_app. auto.
     - right. right. apply in_or_app. auto. }
-  destruct ev as [a l o|r| |n| | | |i o r race]; cbn [step].
+  destruct ev as [a l o|r| |n| | | |i o r race|n|n aid]; cbn [step].
   - pose proof (do_connect_spec p st a l o) as Hd.
     destruct (do_connect p st a l o) as [[st1 e1] res]. destruct Hd as (Dcore & _). apply Hkeep. exact Dcore.
   - unfold transport_error. destruct (est st) eqn:He; try (apply Hkeep; reflexivity).
@@ -1334,7 +1386,7 @@ Proof.
     + destruct H8 as (-> & H9 & H10 & _). apply Hkeep. unfold core. cbn. congruence.
   - pose proof (api_disconnect_spec p st) as Hd. destruct (api_disconnect p st) as [st1 e1].
     destruct Hd as (Dcore & _). apply Hkeep. exact Dcore.
-  - destruct (is_conn (est st) && connected st); [|apply Hkeep; reflexivity].
+  - destruct (is_conn (est st) && (connected st || mem n (nss st))); [|apply Hkeep; reflexivity].
     destruct (remove_ns n (nss st)); [|apply Hkeep; reflexivity].
     pose proof (eio_disconnect_spec p (set_connected (set_nss st []) false) RClient) as Hd.
     destruct (eio_disconnect p (set_connected (set_nss st []) false) RClient) as [st1 e1].
@@ -1391,6 +1443,12 @@ Proof.
            right. left. apply in_or_app. right. apply in_or_app. right. apply in_or_app. right. left. reflexivity.
         -- destruct S6 as (T1 & _ & T3 & _). intros id Hid. rewrite T3, Hrt in Hid. inversion Hid; subst.
            left. unfold live. rewrite T1. cbn. rewrite Nat.eqb_refl. reflexivity.
+  - pose proof (emit_ack_spec p st (EmitCb n) eq_refl) as Hs. cbn [step] in Hs.
+    match goal with |- (let '(_, _) := ?x in _) => destruct x as [st1 e1] end.
+    destruct Hs as (S1 & _). apply Hkeep. exact S1.
+  - pose proof (emit_ack_spec p st (ServerAck n aid) eq_refl) as Hs. cbn [step] in Hs.
+    match goal with |- (let '(_, _) := ?x in _) => destruct x as [st1 e1] end.
+    destruct Hs as (S1 & _). apply Hkeep. exact S1.
 Qed.
 
 Lemma hist_run p : forall evs st acc,
@@ -1817,3 +1875,285 @@ Example effort_example :
   waits (fst (handle_reconnect p sc)) /\
   List.length (waits (fst (handle_reconnect p sc))) = 3.
 Proof. vm_compute. repeat split. Qed.
+
+(* ================================================================== *)
+(* Part D - a reconnection starts fresh: self.callbacks                *)
+(* ================================================================== *)
+Lemma hed_extra p st why :
+  let '(st', e, sp) := handle_eio_disconnect p st why in
+  cbs st' = [] /\ nss st' = (if connected st then [] else nss st) /\ next_cb st' = next_cb st.
+Proof.
+  unfold handle_eio_disconnect.
+  destruct (connected st); cbn [rtask set_connected set_nss set_cbs];
+    match goal with |- context [if ?c then _ else _] => destruct c end; cbn; auto.
+Qed.
+
+Lemma eio_disconnect_extra p st why :
+  let '(st', e) := eio_disconnect p st why in
+  if is_conn (est st) then cbs st' = [] /\ nss st' = (if connected st then [] else nss st)
+  else cbs st' = cbs st /\ nss st' = nss st /\ connected st' = connected st.
+Proof.
+  unfold eio_disconnect. destruct (est st) eqn:He; cbn [is_conn]; try (cbn; auto).
+  pose proof (hed_extra p (set_est st EDisconnecting) why) as H.
+  destruct (handle_eio_disconnect p (set_est st EDisconnecting) why) as [[st1 e1] sp].
+  cbn in *. destruct H as (H1 & H2 & _). auto.
+Qed.
+
+Lemma wake_all_fields p : forall fuel st,
+  let st' := fst (wake_all p st fuel) in
+  cbs st' = cbs st /\ nss st' = nss st /\ est st' = est st /\ connected st' = connected st.
+Proof.
+  induction fuel as [|f IH]; intro st; cbn [wake_all]; [cbn; auto|].
+  destruct (tasks st) as [|t l]; [cbn; auto|].
+  unfold task_abort. specialize (IH (task_exit p st 0 (fixed p))).
+  destruct (wake_all p (task_exit p st 0 (fixed p)) f) as [st2 e2]. cbn [fst] in *.
+  destruct IH as (I1 & I2 & I3 & I4). unfold task_exit in *.
+  destruct (fixed p); cbn in *; auto.
+Qed.
+
+Lemma abort_all_fields p st :
+  let st' := fst (abort_all p st) in
+  cbs st' = cbs st /\ nss st' = nss st /\ est st' = est st /\ connected st' = connected st.
+Proof. unfold abort_all. apply (wake_all_fields p _ (set_aflag st true)). Qed.
+
+Lemma do_connect_extra p st a l o :
+  connected st = false -> est st = EDisc -> cbs st = [] ->
+  let '(st', e, res) := do_connect p st a l o in
+  cbs st' = [] /\ (res <> ROk -> nss st' = []).
+Proof.
+  intros Hc He Hcb. unfold do_connect. rewrite Hc, He.
+  destruct o as [|rs]; [cbn; auto|].
+  destruct (connect_replies (a_auth a) l rs []) as [cur e].
+  destruct (set_eq cur l); [cbn; split; [exact Hcb|congruence]|].
+  unfold api_disconnect.
+  pose proof (eio_disconnect_extra p (set_nss (set_est (set_nss (set_conn_args st a l) []) EConn) cur) RClient) as H.
+  destruct (eio_disconnect p _ RClient) as [st3 e3]. cbn in H. destruct H as (H1 & _). cbn. auto.
+Qed.
+
+(* engine.io says 'connected' exactly while the client is connected; a disconnected client has
+   no namespaces and no pending callbacks *)
+Definition Fresh (st : state) : Prop :=
+  (est st = EConn -> connected st = true) /\ (est st = EDisc -> nss st = [] /\ cbs st = []).
+
+Lemma fresh_init : Fresh init.
+Proof. split; [discriminate|auto]. Qed.
+
+Lemma timeout_fields p st t o r race :
+  tasks st = [t] ->
+  let '(st1, e1, res) := do_connect p st (args st) (cns st) o in
+  let st' := fst (task_timeout p st 0 o r race) in
+  match res with
+  | ROk =>
+      if race && is_conn (est st1) then est st' = EDisc /\ cbs st' = [] /\ connected st' = false /\
+                                        nss st' = (if connected st1 then [] else nss st1)
+      else est st' = est st1 /\ connected st' = connected st1 /\ nss st' = nss st1 /\ cbs st' = cbs st1
+  | _ => est st' = est st1 /\ connected st' = connected st1 /\ nss st' = nss st1 /\ cbs st' = cbs st1
+  end.
+Proof.
+  intro Ht. unfold task_timeout. rewrite Ht. cbn [nth_error].
+  destruct (do_connect p st (args st) (cns st) o) as [[st1 e1] res].
+  assert (Hfail : forall c,
+    let st' := fst (match after_attempt p (S (t_count t)) false with
+      | DGiveUp => (task_exit p st1 0 (fixed p), e1 ++ finals (cns st1) ++ [FTaskEnd (t_id t) GaveUp])
+      | _ => let '(w, cur) := next_wait p (t_cur t) r in
+             if aflag st1 then let '(st2, e2) := task_abort p st1 0 t in (st2, e1 ++ FRandom :: FWait w :: e2)
+             else (set_tasks st1 (replace_nth 0 (mkTask (t_id t) (S (t_count t)) cur) (tasks st1)), c w)
+      end) in
+    est st' = est st1 /\ connected st' = connected st1 /\ nss st' = nss st1 /\ cbs st' = cbs st1).
+  { intro c. destruct (after_attempt p (S (t_count t)) false); cbn [next_wait];
+      unfold task_abort, task_exit; destruct (aflag st1), (fixed p); cbn; auto. }
+  destruct res; try apply (Hfail (fun w => e1 ++ [FRandom; FWait w])).
+  destruct race; cbn [andb].
+  - unfold transport_error. destruct (est st1) eqn:He1; cbn [is_conn];
+      try (unfold task_exit; cbn; auto).
+    pose proof (hed_spec p st1 RTransport) as Hs. pose proof (hed_extra p st1 RTransport) as Hx.
+    destruct (handle_eio_disconnect p st1 RTransport) as [[st2 e2] sp].
+    destruct Hs as (_ & _ & _ & _ & _ & _ & H7 & _). destruct Hx as (X1 & X2 & _).
+    destruct sp; unfold task_start, task_exit; cbn; auto.
+  - unfold task_exit. cbn. auto.
+Qed.
+
+Lemma fresh_step p st ev : Inv p st -> Fresh st -> Fresh (fst (step p st ev)).
+Proof.
+  intros HI (F1 & F2). pose proof HI as (_ & Hest & _ & Hce).
+  assert (Hcases : est st = EConn /\ connected st = true \/
+                   est st = EDisc /\ connected st = false /\ nss st = [] /\ cbs st = []).
+  { destruct (est st) eqn:He; [right|left; auto|congruence].
+    destruct (F2 eq_refl). repeat split; auto.
+    destruct (connected st) eqn:Hc; [specialize (Hce eq_refl); congruence|reflexivity]. }
+  destruct ev as [a l o|r| |n| | | |i o r race|n|n aid]; cbn [step].
+  - (* Connect *)
+    pose proof (do_connect_spec p st a l o) as Hd.
+    destruct Hcases as [(He & Hc)|(He & Hc & Hn & Hb)].
+    + destruct (do_connect p st a l o) as [[st1 e1] res].
+      destruct Hd as (_ & Dc & _). destruct (Dc Hc) as (-> & _). cbn. split; auto.
+    + pose proof (do_connect_extra p st a l o Hc He Hb) as Hx.
+      destruct (do_connect p st a l o) as [[st1 e1] res].
+      destruct Hd as (_ & _ & _ & Dok & Dnok & Ddisc & _). destruct Hx as (X1 & X2). cbn [fst].
+      destruct res.
+      * destruct (Dok eq_refl) as (K1 & K2 & _). split; [auto|congruence].
+      * split; [rewrite Ddisc; [discriminate|discriminate|exact He]|]. intros _. split; [apply X2; discriminate|exact X1].
+      * split; [rewrite Ddisc; [discriminate|discriminate|exact He]|]. intros _. split; [apply X2; discriminate|exact X1].
+      * split; [rewrite Ddisc; [discriminate|discriminate|exact He]|]. intros _. split; [apply X2; discriminate|exact X1].
+  - (* Loss *)
+    unfold transport_error. destruct Hcases as [(He & Hc)|(He & Hc & Hn & Hb)]; rewrite He; [|split; auto].
+    pose proof (hed_extra p st RTransport) as Hx.
+    destruct (handle_eio_disconnect p st RTransport) as [[st1 e1] sp]. destruct Hx as (X1 & X2 & _).
+    rewrite Hc in X2. destruct sp; unfold task_start; cbn; split; try discriminate; auto.
+  - (* Disconnect *)
+    unfold api_disconnect. pose proof (eio_disconnect_extra p st RClient) as Hx.
+    pose proof (eio_disconnect_spec p st RClient) as Hs.
+    destruct (eio_disconnect p st RClient) as [st1 e1]. destruct Hs as (_ & S2 & _). cbn [fst].
+    split; [rewrite S2; discriminate|]. intros _.
+    destruct Hcases as [(He & Hc)|(He & Hc & Hn & Hb)]; rewrite He in Hx; cbn [is_conn] in Hx.
+    + rewrite Hc in Hx. destruct Hx; auto.
+    + destruct Hx as (X1 & X2 & _). split; congruence.
+  - (* ServerDisconnect *)
+    destruct Hcases as [(He & Hc)|(He & Hc & Hn & Hb)]; rewrite He; cbn [is_conn andb]; [|split; auto].
+    rewrite Hc. cbn [orb]. destruct (remove_ns n (nss st)).
+    + pose proof (eio_disconnect_extra p (set_connected (set_nss st []) false) RClient) as Hx.
+      pose proof (eio_disconnect_spec p (set_connected (set_nss st []) false) RClient) as Hs.
+      destruct (eio_disconnect p (set_connected (set_nss st []) false) RClient) as [st1 e1].
+      destruct Hs as (_ & S2 & _). cbn in Hx. rewrite He in Hx. cbn in Hx. cbn [fst].
+      split; [rewrite S2; discriminate|]. intros _. destruct Hx; auto.
+    + unfold Fresh. cbn. split; [auto|intro X; congruence].
+  - (* ServerClose *)
+    destruct Hcases as [(He & Hc)|(He & Hc & Hn & Hb)]; rewrite He; cbn [is_conn]; [|split; auto].
+    pose proof (eio_disconnect_extra p st RServer) as Hx. pose proof (eio_disconnect_spec p st RServer) as Hs.
+    destruct (eio_disconnect p st RServer) as [st1 e1]. destruct Hs as (_ & S2 & _). cbn [fst].
+    rewrite He, Hc in Hx. cbn in Hx. split; [rewrite S2; discriminate|]. intros _. destruct Hx; auto.
+  - (* Shutdown *)
+    destruct Hcases as [(He & Hc)|(He & Hc & Hn & Hb)]; rewrite Hc.
+    + unfold api_disconnect. pose proof (eio_disconnect_extra p st RClient) as Hx.
+      pose proof (eio_disconnect_spec p st RClient) as Hs.
+      destruct (eio_disconnect p st RClient) as [st1 e1]. destruct Hs as (_ & S2 & _). cbn [fst].
+      rewrite He, Hc in Hx. cbn in Hx. split; [rewrite S2; discriminate|]. intros _. destruct Hx; auto.
+    + destruct (is_some (rtask st)); [|split; auto].
+      pose proof (abort_all_fields p st) as Hf. cbv zeta in Hf.
+      destruct (abort_all p st) as [st1 e1]. cbn [fst] in *. destruct Hf as (A1 & A2 & A3 & A4).
+      split; [congruence|]. intros _. split; congruence.
+  - (* Sigint *)
+    destruct (0 <? rcl st); [|split; auto].
+    pose proof (abort_all_fields p st) as Hf. cbv zeta in Hf.
+    destruct (abort_all p st) as [st1 e1]. cbn [fst] in *. destruct Hf as (A1 & A2 & A3 & A4).
+    split; [rewrite A3, A4; exact F1|]. rewrite A1, A2, A3. exact F2.
+  - (* Timeout *)
+    destruct (inv_tasks p st HI) as [Hn0|[t [Hn0 _]]].
+    { unfold task_timeout. rewrite Hn0. destruct i; split; auto. }
+    destruct i as [|i]; [|unfold task_timeout; rewrite Hn0; destruct i; split; auto].
+    pose proof (timeout_fields p st t o r race Hn0) as Hf.
+    pose proof (do_connect_spec p st (args st) (cns st) o) as Hd.
+    destruct Hcases as [(He & Hc)|(He & Hc & Hn & Hb)].
+    + destruct (do_connect p st (args st) (cns st) o) as [[st1 e1] res].
+      destruct Hd as (_ & Dc & _). destruct (Dc Hc) as (-> & _ & ->). cbv zeta in Hf.
+      destruct Hf as (G1 & G2 & G3 & G4). split; [rewrite G1, G2; exact F1|]. rewrite G1, G3, G4. exact F2.
+    + pose proof (do_connect_extra p st (args st) (cns st) o Hc He Hb) as Hx.
+      destruct (do_connect p st (args st) (cns st) o) as [[st1 e1] res].
+      destruct Hd as (_ & _ & _ & Dok & Dnok & Ddisc & _). destruct Hx as (X1 & X2). cbv zeta in Hf.
+      destruct res.
+      * destruct (Dok eq_refl) as (K1 & K2 & _). rewrite K2, K1 in Hf. cbn [is_conn] in Hf.
+        destruct race; cbn [andb] in Hf.
+        -- destruct Hf as (G1 & G2 & G3 & G4). split; [congruence|]. intros _. split; congruence.
+        -- destruct Hf as (G1 & G2 & G3 & G4). split; [congruence|]. intros X. congruence.
+      * destruct Hf as (G1 & G2 & G3 & G4).
+        assert (est st1 = EDisc) by (apply Ddisc; [discriminate|exact He]).
+        split; [congruence|]. intros _. split; [rewrite G3; apply X2; discriminate|congruence].
+      * destruct Hf as (G1 & G2 & G3 & G4).
+        assert (est st1 = EDisc) by (apply Ddisc; [discriminate|exact He]).
+        split; [congruence|]. intros _. split; [rewrite G3; apply X2; discriminate|congruence].
+      * destruct Hf as (G1 & G2 & G3 & G4).
+        assert (est st1 = EDisc) by (apply Ddisc; [discriminate|exact He]).
+        split; [congruence|]. intros _. split; [rewrite G3; apply X2; discriminate|congruence].
+  - (* EmitCb *)
+    destruct Hcases as [(He & Hc)|(He & Hc & Hn & Hb)].
+    + destruct (mem n (nss st)); [|split; auto].
+      destruct (cb_lookup n (cbs st)) as [nxt entries]. unfold Fresh. cbn. split; [auto|intro X; congruence].
+    + rewrite Hn. cbn. split; auto.
+  - (* ServerAck *)
+    destruct Hcases as [(He & Hc)|(He & Hc & Hn & Hb)]; rewrite He; cbn [is_conn]; [|split; auto].
+    destruct (cb_find n (cbs st)) as [[nxt entries]|]; [|split; auto].
+    destruct (find (fun e => fst e =? aid) entries) as [[i' k]|]; unfold Fresh; cbn; split; auto; intro X; congruence.
+Qed.
+
+Lemma fresh_run p : forall evs st, Inv p st -> Fresh st -> Fresh (fst (run_from p st evs)).
+Proof.
+  induction evs as [|ev evs IH]; intros st HI HF; [exact HF|].
+  cbn [run_from]. pose proof (inv_step p st ev HI) as H1. pose proof (fresh_step p st ev HI HF) as H2.
+  destruct (step p st ev) as [st1 e1]. cbn [fst] in *. specialize (IH st1 H1 H2).
+  destruct (run_from p st1 evs) as [st2 es]. exact IH.
+Qed.
+
+Lemma do_connect_ok_nss p st a l o :
+  let '(st', e, res) := do_connect p st a l o in
+  res = ROk -> forall n, In n l -> mem n (nss st') = true.
+Proof.
+  unfold do_connect. destruct (connected st); [discriminate|].
+  destruct (est st); try discriminate. destruct o as [|rs]; [discriminate|].
+  destruct (connect_replies (a_auth a) l rs []) as [cur e].
+  destruct (set_eq cur l) eqn:Hse.
+  - intros _ n Hn. cbn. unfold set_eq in Hse. apply andb_true_iff in Hse as [_ Hs].
+    apply mem_In. apply (subset_In _ _ Hs). exact Hn.
+  - destruct (api_disconnect p _). discriminate.
+Qed.
+
+(* C10_reconnect_resets_callbacks: whenever engine.io is not connected (in particular after any
+   loss, during the whole back-off, and at the moment a reconnection succeeds) self.callbacks is
+   empty; every loss empties it on the spot; and the first emit with a callback on a namespace
+   after a successful reconnection carries id 1, while an ACK arriving then invokes nothing *)
+Theorem reconnect_resets_callbacks p evs :
+  let st := final p evs in
+  (est st = EDisc -> cbs st = [] /\ nss st = []) /\
+  (forall r, est st = EConn -> cbs (fst (step p st (Loss r))) = []) /\
+  (forall i o r id,
+     let '(st', e) := step p st (Timeout i o r false) in
+     In (FTaskEnd id Reconnected) e ->
+     cbs st' = [] /\
+     (forall n aid, snd (step p st' (ServerAck n aid)) = []) /\
+     (forall n, In n (cns st) -> snd (step p st' (EmitCb n)) = [FSendEvent n 1; FEmit true])).
+Proof.
+  cbv zeta. pose proof (inv_final p evs) as HI.
+  pose proof (fresh_run p evs init (inv_init p) fresh_init) as HF. fold (final p evs) in HF.
+  set (st := final p evs) in *. destruct HF as (F1 & F2).
+  split; [intro He; destruct (F2 He); auto|]. split.
+  - intros r He. cbn [step]. unfold transport_error. rewrite He.
+    pose proof (hed_extra p st RTransport) as Hx.
+    destruct (handle_eio_disconnect p st RTransport) as [[st1 e1] sp]. destruct Hx as (X1 & _).
+    destruct sp; unfold task_start; cbn; exact X1.
+  - intros i o r id.
+    pose proof (success_runs_connect_handlers p evs i o r false id) as Hs.
+    fold st in Hs. cbv zeta in Hs.
+    destruct (step p st (Timeout i o r false)) as [st' e] eqn:Hstep.
+    intro Hin. destruct (Hs Hin) as (_ & Hok & _ & _ & _ & _ & Hc & He).
+    destruct (F2 He) as (_ & Hb).
+    destruct (inv_tasks p st HI) as [Hn0|[t [Hn0 _]]].
+    { cbn [step] in Hstep. unfold task_timeout in Hstep. rewrite Hn0 in Hstep.
+      destruct i; inversion Hstep; subst; destruct Hin. }
+    destruct i as [|i].
+    2:{ cbn [step] in Hstep. unfold task_timeout in Hstep. rewrite Hn0 in Hstep.
+        destruct i; inversion Hstep; subst; destruct Hin. }
+    pose proof (timeout_fields p st t o r false Hn0) as Hf.
+    pose proof (do_connect_spec p st (args st) (cns st) o) as Hd.
+    pose proof (do_connect_extra p st (args st) (cns st) o Hc He Hb) as Hx.
+    pose proof (do_connect_ok_nss p st (args st) (cns st) o) as Hm.
+    cbn [step] in Hstep. rewrite Hstep in Hf. cbn [fst] in Hf.
+    destruct (do_connect p st (args st) (cns st) o) as [[st1 e1] res].
+    destruct Hd as (_ & _ & _ & Dok & _ & _ & Dsucc & _).
+    rewrite (Dsucc Hc He Hok) in *. destruct (Dok eq_refl) as (K1 & K2 & _).
+    destruct Hx as (X1 & _). cbv zeta in Hf. cbn [andb] in Hf. destruct Hf as (G1 & G2 & G3 & G4).
+    assert (Hcb : cbs st' = []) by congruence.
+    assert (Hest' : est st' = EConn) by congruence.
+    split; [exact Hcb|]. split.
+    + intros n aid. cbn [step]. rewrite Hest', Hcb. reflexivity.
+    + intros n Hn. cbn [step]. rewrite G3, (Hm eq_refl n Hn). unfold cb_lookup. rewrite Hcb, Hest'. reflexivity.
+Qed.
+
+Example reconnect_resets_example :
+  let p := mkParams true 0 1 5 (1#2) false in
+  let evs := [Connect (mkArgs 1 1 1 0 1) [0; 1] (OReplies []); EmitCb 0; EmitCb 0; EmitCb 1; Loss (1#4);
+              EmitCb 0; Timeout 0 OConnErr (1#2) false; Timeout 0 (OReplies []) (1#2) false;
+              ServerAck 0 1; EmitCb 0] in
+  map (filter (fun x => match x with FSendEvent _ _ | FEmit _ | FCallback _ => true | _ => false end))
+      (snd (run p evs)) =
+  [[]; [FSendEvent 0 1; FEmit true]; [FSendEvent 0 2; FEmit true]; [FSendEvent 1 1; FEmit true]; [];
+   [FEmit false]; []; []; []; [FSendEvent 0 1; FEmit true]].
+Proof. vm_compute. reflexivity. Qed.
